@@ -146,9 +146,9 @@ def run(c, a):
             base.append(d)
     from concurrent.futures import ThreadPoolExecutor
     with ThreadPoolExecutor(max_workers=4) as ex:
-        f_rp = ex.submit(c.tlc, SPEC, "TlsAdmit", "pinned_admit.cfg", workers=1, timeout=300, name="design-pinned-admit")
-        f_rf = ex.submit(c.tlc, SPEC, "TlsAdmit", "fixed.cfg", workers=1, timeout=300, name="design-fixed")
-        f_cases = ex.submit(c.tlc, SPEC, "TlsAdmitCases", "cases.cfg", workers=1, timeout=300, line_cb=on_case, name="cases")
+        f_rp = ex.submit(c.tlc, SPEC, "TlsAdmit", "pinned_admit.cfg", workers=1, timeout=900, name="design-pinned-admit")
+        f_rf = ex.submit(c.tlc, SPEC, "TlsAdmit", "fixed.cfg", workers=1, timeout=900, name="design-fixed")
+        f_cases = ex.submit(c.tlc, SPEC, "TlsAdmitCases", "cases.cfg", workers=1, timeout=900, line_cb=on_case, name="cases")
         f_bins = ex.submit(build_all, c)
         rp, rf = f_rp.result(), f_rf.result()
         f_cases.result()
